@@ -101,7 +101,8 @@ func replayStore(o *out, lines []string) {
 	defer m.close()
 	defer b.close()
 	o.pf("STORE\n")
-	for _, l := range lines[1:] {
+	var held []heldWire
+	for i, l := range lines[1:] {
 		fl := strings.Split(l, " ")
 		switch fl[0] {
 		case "PUT":
@@ -114,10 +115,17 @@ func replayStore(o *out, lines []string) {
 			wm, _ := m.st.Get(nm, fl[2] == "1")
 			wb, _ := b.st.Get(nm, fl[2] == "1")
 			o.pf("GET %s %s %s %s\n", fl[1], fl[2], optHex(wm), optHex(wb))
+			if wb != nil {
+				held = append(held, heldWire{got: wb, want: append([]byte(nil), wb...), op: i})
+			}
 		case "REMOVE":
 			o.pf("%s\n", l)
 			m.st.Remove(parseName(fl[1]), fl[2] == "1")
 			b.st.Remove(parseName(fl[1]), fl[2] == "1")
+			recheckHeld(o, held, "Remove")
+		case "REMOVEM":
+			o.pf("%s\n", l)
+			m.st.Remove(parseName(fl[1]), fl[2] == "1")
 		case "BEGIN":
 			o.pf("BEGIN\n")
 			m.st.Begin()
@@ -126,6 +134,7 @@ func replayStore(o *out, lines []string) {
 			o.pf("COMMIT\n")
 			m.st.Commit()
 			b.st.Commit()
+			recheckHeld(o, held, "Commit")
 		case "ROLLBACK":
 			o.pf("ROLLBACK\n")
 			m.st.Rollback()
